@@ -681,7 +681,7 @@ def more_units():
              "Fq12::exponentiate_gt = a^k, Fq12::multiply on GT (C07)", "pairing / pairing_product bilinear (C01, C08)", "BigInt<256>::add/subtract/equal integer contracts (C02)"]
     B = lambda n: "slot count l <= %d (all shapes; values symbolic)" % n
     mk = lambda label, props, gen, n, tier="quick", targets=(): us.append(ScenUnit(label + " (l<=%d)" % n, props, gen(n), tier=tier, kind="bounded", bound=B(n), targets=T(*targets), contracts_used=lower))
-    mk("wkdibe::adjust_nondelegable == nondelegable_qualifykey(parent, to)", ["C14", "C11"], gen_adjust_nondelegable, 2, targets=["adjust_nondelegable"])
+    mk("wkdibe::adjust_nondelegable == nondelegable_qualifykey(parent, to)", ["C14", "C11", "C12"], gen_adjust_nondelegable, 2, targets=["adjust_nondelegable"])
     mk("wkdibe::adjust_nondelegable == nondelegable_qualifykey(parent, to)", ["C14", "C11"], gen_adjust_nondelegable, 3, tier="thorough", targets=["adjust_nondelegable"])
     mk("wkdibe::precompute == g3 + sum id_i h_i", ["C14", "C12"], gen_precompute, 3, targets=["precompute"])
     mk("wkdibe::adjust_precomputed == precompute(to)", ["C14"], gen_adjust_precomputed, 3, targets=["adjust_precomputed"])
@@ -691,8 +691,8 @@ def more_units():
     mk("wkdibe::decrypt with a mismatching key / modified ciphertext", ["C12"], gen_mismatch, 2, targets=["encrypt", "decrypt"])
     mk("wkdibe::decrypt with a mismatching key / modified ciphertext", ["C12"], gen_mismatch, 3, tier="thorough", targets=["encrypt", "decrypt"])
     mk("wkdibe: hidden slots cannot be filled", ["C12"], gen_hidden_fill, 3, targets=["qualifykey", "nondelegable_qualifykey", "adjust_nondelegable", "decrypt"])
-    mk("wkdibe::sign/verify", ["C13", "C14"], gen_sign, 2, targets=["sign", "sign_precomputed", "verify", "verify_precomputed"])
-    mk("wkdibe::sign/verify", ["C13", "C14"], gen_sign, 3, tier="thorough", targets=["sign", "sign_precomputed", "verify", "verify_precomputed"])
+    mk("wkdibe::sign/verify", ["C13", "C14"], gen_sign, 3, targets=["sign", "sign_precomputed", "verify", "verify_precomputed"])
+    mk("wkdibe::sign/verify", ["C13", "C14"], gen_sign, 4, tier="thorough", targets=["sign", "sign_precomputed", "verify", "verify_precomputed"])
     mk("wkdibe::sign with an incompatible key", ["C13"], gen_sign_incompatible, 3, targets=["sign", "verify"])
     return us
 
